@@ -40,9 +40,7 @@ NA = {
 }
 # properties whose check is planned in DESIGN.md but not built yet
 PENDING = {
- "C08": "check not built yet (planned: importer admission kernel, DESIGN §5 C08)",
  "C11": "check not built yet (planned: next_prefix kernel, DESIGN §5 C11)",
- "C15": "check not built yet (planned: PoA verify_block_fields, DESIGN §5 C15)",
  "C22": "check not built yet (planned: TxUpdateStream steps, DESIGN §5 C22)",
  "C34": "check not built yet (planned: gas price updater step, DESIGN §5 C34)",
  "C36": "check not built yet (planned: balances indexation step, DESIGN §5 C36)",
